@@ -34,7 +34,7 @@ class TrioRunner(BaseRunner):
                 self._submit_tasks.send, payload, trio_token=self._trio_token
             )
         except (trio.RunFinishedError, trio.Cancelled, trio.ClosedResourceError):
-            self._logger.warning(f"discarding payload {payload} during shutdown")
+            self._logger.warning("discarding payload %s during shutdown", payload)
             return
         except RuntimeError:
             # trio raises a bare RuntimeError when we are already in the trio thread
@@ -42,7 +42,7 @@ class TrioRunner(BaseRunner):
             try:
                 self._submit_tasks.send_nowait(payload)
             except trio.ClosedResourceError:
-                self._logger.warning(f"discarding payload {payload} during shutdown")
+                self._logger.warning("discarding payload %s during shutdown", payload)
 
     def run_payload(self, payload: Callable[[], Coroutine]):
         assert self._trio_token is not None and self._submit_tasks is not None
